@@ -6,7 +6,7 @@ use std::sync::{Arc, Condvar, Mutex};
 use std::time::{Duration, Instant};
 
 struct St {
-    /// 0 = running, 1 = waiting at a point, 2 = done
+    /// 0 = running, 1 = waiting at a point, 2 = done, 3 = waiting because a lock could not be taken
     status: Vec<u8>,
     turn: Option<usize>,
     free_run: bool,
@@ -29,16 +29,33 @@ pub fn point() {
     }
 }
 
+/// Reported by instrumented lock wrappers: the calling thread cannot take a lock right now. It waits
+/// until the scheduler lets it retry, which it does only after another thread has run.
+pub fn blocked() {
+    let g = GATE.with(|g| g.borrow().clone());
+    match g {
+        Some((s, tid)) => s.wait_turn(tid, 3),
+        None => std::thread::yield_now(),
+    }
+}
+
 impl Sched {
     fn new(n: usize) -> Arc<Sched> {
         Arc::new(Sched { m: Mutex::new(St { status: vec![0; n], turn: None, free_run: false }), cv: Condvar::new() })
     }
     fn point(&self, tid: usize) {
+        self.wait_turn(tid, 1)
+    }
+    fn wait_turn(&self, tid: usize, as_status: u8) {
         let mut st = self.m.lock().unwrap_or_else(|e| e.into_inner());
         if st.free_run {
+            drop(st);
+            if as_status == 3 {
+                std::thread::yield_now();
+            }
             return;
         }
-        st.status[tid] = 1;
+        st.status[tid] = as_status;
         self.cv.notify_all();
         while st.turn != Some(tid) && !st.free_run {
             st = self.cv.wait(st).unwrap_or_else(|e| e.into_inner());
@@ -68,6 +85,8 @@ pub struct Execution<R> {
     pub infeasible: bool,
     /// some thread blocked on a resource the scheduler does not own and was left loose
     pub overlapped: bool,
+    /// every live thread was waiting for a lock (instrumented build only)
+    pub deadlocked: bool,
 }
 
 /// One thread body: runs with the gate installed; must call `point()` (directly or through callbacks).
@@ -107,6 +126,9 @@ pub fn run_once<R: Send + 'static + Default>(bodies: &[Body<R>], prefix: &[usize
     let mut infeasible = false;
     let mut overlapped = false;
     let mut loose: Vec<bool> = vec![false; n];
+    // a thread waiting for a lock may retry only after another thread has run
+    let mut retry_ok: Vec<bool> = vec![false; n];
+    let mut deadlocked = false;
     // the thread the controller is currently waiting for (None at the start: wait for everybody)
     let mut awaited: Option<usize> = None;
     'outer: loop {
@@ -146,15 +168,28 @@ pub fn run_once<R: Send + 'static + Default>(bodies: &[Body<R>], prefix: &[usize
             st = g;
         }
         // 2. decide
-        let mut enabled: Vec<usize> = (0..n).filter(|&t| st.status[t] == 1).collect();
+        for t in 0..n {
+            if st.status[t] == 3 && awaited == Some(t) {
+                retry_ok[t] = false; // it just failed to take the lock
+            }
+        }
+        let mut enabled: Vec<usize> = (0..n).filter(|&t| st.status[t] == 1 || (st.status[t] == 3 && retry_ok[t])).collect();
         if enabled.is_empty() {
             if (0..n).all(|t| st.status[t] == 2) {
                 break;
             }
+            if (0..n).all(|t| st.status[t] == 2 || st.status[t] == 3) {
+                // every live thread waits for a lock nobody will release
+                st.free_run = true;
+                s.cv.notify_all();
+                infeasible = true;
+                deadlocked = true;
+                break 'outer;
+            }
             // only loose threads are left: wait for one of them to reach a point or finish
             let deadline = Instant::now() + STEP_TIMEOUT;
             loop {
-                if (0..n).any(|t| st.status[t] == 1) || (0..n).all(|t| st.status[t] == 2) {
+                if (0..n).any(|t| st.status[t] == 1 || st.status[t] == 3) || (0..n).all(|t| st.status[t] == 2) {
                     break;
                 }
                 let now = Instant::now();
@@ -172,6 +207,7 @@ pub fn run_once<R: Send + 'static + Default>(bodies: &[Body<R>], prefix: &[usize
                 if st.status[t] != 0 {
                     loose[t] = false;
                 }
+                retry_ok[t] = true; // a loose thread has run meanwhile
             }
             drop(st);
             continue;
@@ -205,6 +241,11 @@ pub fn run_once<R: Send + 'static + Default>(bodies: &[Body<R>], prefix: &[usize
         choices.push(choice);
         prev = Some(tid);
         awaited = Some(tid);
+        for t in 0..n {
+            if t != tid {
+                retry_ok[t] = true;
+            }
+        }
         st.turn = Some(tid);
         s.cv.notify_all();
     }
@@ -212,20 +253,21 @@ pub fn run_once<R: Send + 'static + Default>(bodies: &[Body<R>], prefix: &[usize
     for h in handles {
         results.push(h.join().ok().flatten().unwrap_or_default());
     }
-    Execution { points, choices, results, infeasible, overlapped }
+    Execution { points, choices, results, infeasible, overlapped, deadlocked }
 }
 
 pub struct Exploration {
     pub executions: u64,
     pub infeasible: u64,
     pub overlapped: u64,
+    pub deadlocks: Vec<Vec<usize>>,
     pub max_points: usize,
 }
 
 /// Explore every schedule with at most `bound` preemptions (CHESS-style, by re-execution).
 /// `check` is called with (choices, results) of every complete feasible execution.
 pub fn explore<R: Send + 'static + Default>(bodies: &[Body<R>], bound: usize, check: &mut dyn FnMut(&[usize], &[R])) -> Exploration {
-    let mut ex = Exploration { executions: 0, infeasible: 0, overlapped: 0, max_points: 0 };
+    let mut ex = Exploration { executions: 0, infeasible: 0, overlapped: 0, deadlocks: vec![], max_points: 0 };
     fn preemptions(points: &[Point], choices: &[usize], upto: usize) -> usize {
         (0..upto).filter(|&i| points[i].running_still_enabled && choices[i] != 0).count()
     }
@@ -235,6 +277,9 @@ pub fn explore<R: Send + 'static + Default>(bodies: &[Body<R>], bound: usize, ch
         ex.max_points = ex.max_points.max(x.points.len());
         if x.overlapped {
             ex.overlapped += 1;
+        }
+        if x.deadlocked {
+            ex.deadlocks.push(x.choices.clone());
         }
         if x.infeasible {
             ex.infeasible += 1;
